@@ -41,7 +41,6 @@ import (
 )
 
 const (
-	vfC11KeyOffset0 = "C11:offset0-publication-written-before-connect-reply"
 	vfC11KeyUserOp  = "C11:node-user-op-push-written-before-connect-reply"
 	vfC11KeyRWQ     = "C11:reply-without-queue-write-races-dictionary-close"
 )
@@ -170,6 +169,9 @@ func vfC11GenA(rt *rapid.T) vfC11Case {
 	cs.Steps = append(cs.Steps, vfC11Step{Kind: 0, Conn: 0})
 	for i := 1; i < n; i++ {
 		k := rapid.SampledFrom([]int{0, 1, 1, 1, 1, 1, 2, 2, 3, 4, 5, 5, 6, 6, 7, 7, 8, 9, 10}).Draw(rt, "kind")
+		if i <= 3 && (k == 7 || k == 8) {
+			k = 1 // keep the window open for the first steps
+		}
 		s := vfC11Step{Kind: k}
 		switch k {
 		case 0, 8:
@@ -680,8 +682,6 @@ func vfC11RunA(t *testing.T, cs vfC11Case, out *vfC11Out, isKnown func(string) b
 				}
 				key := ""
 				switch {
-				case p.Pub != nil && p.Pub.Offset == 0 && st.pub0InWin[p.Channel]:
-					key = vfC11KeyOffset0
 				case p.Disconnect != nil:
 					// a disconnect push that is followed by further frames or precedes a reply
 					return "disconnect push is not the last message: " + desc
@@ -1081,7 +1081,7 @@ func vfC11GenD(rt *rapid.T, ws bool) vfC11DCase {
 	// library-spawned second close() calls blocked on a mutex, which a synctest bubble cannot wait out: the peer's close
 	// frame has always been seen already.
 	c.GraceClosed = true
-	n := rapid.IntRange(2, 16).Draw(rt, "nsteps")
+	n := rapid.IntRange(4, 16).Draw(rt, "nsteps")
 	c.Steps = append(c.Steps, vfC11DStep{Kind: 0})
 	for i := 1; i < n; i++ {
 		k := rapid.SampledFrom([]int{1, 1, 1, 2, 2, 2, 3, 3, 4, 5, 6, 6, 6, 7, 8, 9, 10}).Draw(rt, "kind")
@@ -1738,14 +1738,7 @@ func vfC11OracleDouble(cs vfC11DCase, dt *vfC11DT, evs []vfC11Ev, codec *vfC11Co
 			desc += " and the connect reply itself went through the encoder"
 		}
 		desc += "; frames: " + vfRenderFrames(raw)
-		if p != nil && p.Pub != nil && p.Pub.Offset == 0 && pub0InWin {
-			if isKnown(vfC11KeyOffset0) {
-				out.known = append(out.known, vfC11KeyOffset0)
-				out.knownEx = desc
-				return ""
-			}
-			return "[" + vfC11KeyOffset0 + "] " + desc
-		}
+		_ = p
 		return desc
 	}
 	if replyIdx >= 0 {
@@ -1871,14 +1864,7 @@ func vfC11OracleWS(cs vfC11DCase, wire []byte, codec *vfC11Codec, connectID uint
 			desc += " and the connect reply itself went out dictionary-compressed"
 		}
 		desc += "; frames: " + vfRenderFrames(all)
-		if p != nil && p.Pub != nil && p.Pub.Offset == 0 && pub0InWin {
-			if isKnown(vfC11KeyOffset0) {
-				out.known = append(out.known, vfC11KeyOffset0)
-				out.knownEx = desc
-				return ""
-			}
-			return "[" + vfC11KeyOffset0 + "] " + desc
-		}
+		_ = p
 		return desc
 	}
 	if replyIdx >= 0 {
